@@ -168,7 +168,30 @@ Definition fut_expire (c : pcfg) (p : pos) : pos * Q :=
 Definition stock_delist (p : pos) (conv : option Q) (cash_return : bool) : pos * Q * option (Q * Q) :=
   if qeq_b (p_qty p) 0 then (p, 0, None)
   else
-    match conv with
-    | Some ratio => (set_qty p 0 0, qmul (p_avg p) (p_qty p), Some (qdiv (p_avg p) ratio, qmul (p_qty p) ratio))
-    | None => (set_qty p 0 0, if cash_return then qmul (p_last p) (p_qty p) else 0, None)
-    end.
+    let dcash := match conv with
+                 | Some ratio => qmul (p_avg p) (p_qty p)
+                 | None => if cash_return then qmul (p_last p) (p_qty p) else 0
+                 end in
+    (* the payout / refund is booked as sale proceeds of the day: _trade_cost -= delta_cash; quantity := old := 0 *)
+    ({| p_qty := 0; p_old := 0; p_lold := p_lold p; p_avg := p_avg p; p_trade_cost := qsub (p_trade_cost p) dcash; p_tcost := p_tcost p;
+        p_non_closable := p_non_closable p; p_last := p_last p; p_recv := p_recv p |},
+     dcash,
+     match conv with Some ratio => Some (qdiv (p_avg p) ratio, qmul (p_qty p) ratio) | None => None end).
+
+(* StockPosition.before_trading as a whole.  dv: dividend whose book closure date is the previous trading day
+   (per share, payable date); split: ratio whose ex-date is today; reinvest_fee: commission + tax of the reinvestment
+   trade (an input: it is produced by the cost deciders).  Returns (position, cash delta of the account). *)
+Definition stock_before_trading (c : pcfg) (p : pos) (today : Z) (dv : option (Q * Z)) (split : option Q)
+           (reinvest : bool) (lot reinvest_fee : Q) : pos * Q :=
+  let p1 := bt_reset p in
+  if qeq_b (p_qty p1) 0 && negb (match p_recv p1 with Some _ => true | None => false end) then (p1, 0)
+  else
+    let p2 := bt_book p1 dv in
+    let r := bt_pay p2 today reinvest lot in
+    let p3 := fst (fst r) in
+    let amount := snd r in
+    if qlt_b 0 amount then
+      (* the reinvestment TRADE is applied to this very position through Account.apply_trade *)
+      let tr := stock_apply_trade c p3 {| t_effect := Open; t_price := p_last p3; t_qty := amount; t_fee := reinvest_fee |} in
+      (bt_split (fst tr) split, qadd (snd tr) (snd (fst r)))
+    else (bt_split p3 split, snd (fst r)).
